@@ -575,7 +575,9 @@ func genC07(r *Rng, tier string) []Case {
 			recorded := []byte(priv.Public().(ed25519.PublicKey))
 			// 0,1 good; 2 key mismatch; 3 refusing strategy; 4 padded signature; 5 attribute name that is not
 			// UTF-8; 6 attributes naming another key; 7 attributes without the key; 8 a 31/33-byte key
-			kind := r.Intn(9)
+			// 9 attributes naming a NEAR-MISS key: one byte differs in its case bit (where it is an ASCII
+			// letter), in bit 0, or one byte >= 0x80 is replaced by another (both invalid UTF-8)
+			kind := r.Intn(10)
 			if mostlyGood && r.Chance(3, 4) {
 				kind = 0
 			}
@@ -589,12 +591,33 @@ func genC07(r *Rng, tier string) []Case {
 			switch kind {
 			case 5:
 				attrs = append(attrs, [2][]byte{[]byte([]string{"\xff", "a\xc3", "\xed\xa0\x80"}[r.Intn(3)]), {1}})
-			case 6, 7:
+			case 6, 7, 9:
 				na := [][2][]byte{}
 				for _, kv := range attrs {
 					if string(kv[0]) == "ed25519PublicKey" {
 						if kind == 6 {
 							na = append(na, [2][]byte{kv[0], []byte(ed25519.NewKeyFromSeed(r.Bytes(32)).Public().(ed25519.PublicKey))})
+						}
+						if kind == 9 {
+							near := append([]byte{}, kv[1]...)
+							letters, high := []int{}, []int{}
+							for p, c := range near {
+								if (c|0x20) >= 'a' && (c|0x20) <= 'z' {
+									letters = append(letters, p)
+								}
+								if c >= 0x80 {
+									high = append(high, p)
+								}
+							}
+							switch sub := r.Intn(3); {
+							case sub == 0 && len(letters) > 0:
+								near[letters[r.Intn(len(letters))]] ^= 0x20
+							case sub == 1 && len(high) > 0:
+								near[high[r.Intn(len(high))]] ^= 0x01
+							case len(near) > 0:
+								near[r.Intn(len(near))] ^= 0x01
+							}
+							na = append(na, [2][]byte{kv[0], near})
 						}
 						continue
 					}
@@ -633,7 +656,13 @@ func genC07(r *Rng, tier string) []Case {
 	if tier == "thorough" {
 		m = 120
 	}
-	for i := 0; i < m; i++ {
+	// files whose hashed part is an exact multiple of the buffer sizes a streaming hash would use
+	fixed := [][]byte{}
+	for _, total := range []int{4096, 32768, 65535, 65536, 65537, 131072} {
+		fixed = append(fixed, withTrailer(r.Bytes(total-8)))
+	}
+	fixed = append(fixed, append(ibBlockCbor(nil), withTrailer(r.Bytes(65536-8))...))
+	for i := 0; i < m+len(fixed); i++ {
 		var file []byte
 		switch r.Intn(4) {
 		case 0:
@@ -652,6 +681,9 @@ func genC07(r *Rng, tier string) []Case {
 		default:
 			inner := withTrailer(r.Bytes(30))
 			file = append(ibBlockCbor(nil), inner...) // already carries a block: trailing length < size
+		}
+		if i >= m {
+			file = fixed[i-m]
 		}
 		seed := r.Bytes(32)
 		priv := ed25519.NewKeyFromSeed(seed)
